@@ -4,7 +4,7 @@
 # symbolic numbers) and the symbolic file record of scheme/eval.py.
 import z3
 from mirsym.values import *
-from scheme.eval import FileRec
+from scheme.eval import FileRec, num, NW, udiv_const
 
 S_IFMT = 0o170000
 TYPE_BITS = {"Block": 0o060000, "Character": 0o020000, "Directory": 0o040000, "Pipe": 0o010000, "File": 0o100000,
@@ -25,11 +25,7 @@ class Undefined(Exception):
 
 
 def to_int(v):
-    if isinstance(v, int):
-        return z3.IntVal(v)
-    if z3.is_bv(v):
-        return z3.BV2Int(v)
-    return v
+    return num(v)
 
 
 def cmp_(cmp, lhs):
@@ -39,6 +35,7 @@ def cmp_(cmp, lhs):
 
 
 def apply_cmp(kind, lhs, rhs):
+    lhs, rhs = num(lhs), num(rhs)
     return {"GreaterThan": lhs > rhs, "LesserThan": lhs < rhs, "Equal": lhs == rhs}[kind]
 
 
@@ -50,7 +47,9 @@ def str_key(s):
 class Sem:
     def __init__(self, frec, clock):
         self.f = frec
-        self.clock = clock           # z3 Int: the instant the expression was compiled
+        # the instant(s) at which the expression was compiled: one reading per time test, in evaluation order
+        self.clocks = list(clock) if isinstance(clock, (list, tuple)) else [clock]
+        self.clock_i = 0
         self.outputs = []            # dict(guard, dest, payload, term)
         self.stop = False
         self.undefined = False       # guard under which the expression is not defined (e.g. sparseness of empty file)
@@ -105,16 +104,18 @@ class Sem:
             kind, ts = cmp_(t.fields[0], None)
             unit = TIME_UNIT[ts.variant]
             n = to_int(ts.fields[0])
-            age = self.clock - f.ints[field]
+            clk = self.clocks[min(self.clock_i, len(self.clocks) - 1)]
+            self.clock_i += 1
+            age = clk - f.ints[field]
             # the file's timestamp is assumed not to lie in the future of the compile-time clock
-            return apply_cmp(kind, age / unit, n)
+            return apply_cmp(kind, udiv_const(age, unit), n)
         if v == "Size":
             kind, sz = cmp_(t.fields[0], None)
             unit = SIZE_UNIT[sz.variant]
             n = to_int(sz.fields[0])
             if unit == 1:
                 return apply_cmp(kind, f.ints["size"], n)
-            units_used = (f.ints["size"] + (unit - 1)) / unit          # rounded up
+            units_used = udiv_const(f.ints["size"] + (unit - 1), unit)          # rounded up
             return apply_cmp(kind, units_used, n)
         if v == "Type":
             types = t.fields[0].items
@@ -185,12 +186,12 @@ class Sem:
         "Hardlinks": lambda f: [("arg", "d", ("int", f.ints["nlink"]))],
         "DiskSizeBytes": lambda f: [("arg", "d", ("int", f.ints["size"]))],
         "DiskSizeBlocks": lambda f: [("arg", "d", ("int", f.ints["blocks"]))],
-        "DiskSizeKilos": lambda f: [("arg", "d", ("int", (f.ints["blocks"] + 1) / 2))],
+        "DiskSizeKilos": lambda f: [("arg", "d", ("int", udiv_const(f.ints["blocks"] + 1, 2)))],
         "ProjectId": lambda f: [("arg", "d", ("int", f.ints["projid"]))],
         "StripeCount": lambda f: [("arg", "d", ("int", f.ints["lov-stripe-count"]))],
         "StripeSize": lambda f: [("arg", "d", ("int", f.ints["lov-stripe-size"]))],
         "MirrorCount": lambda f: [("arg", "d", ("int", f.ints["lov-mirror-count"]))],
-        "PermissionsOctal": lambda f: [("arg", "o", ("bv", f.mode & 0o7777))],
+        "PermissionsOctal": lambda f: [("arg", "o", ("int", num(f.mode & 0o7777)))],
         "Access": lambda f: [("arg", "a", ("int", f.ints["atime"]))],
         "Change": lambda f: [("arg", "a", ("int", f.ints["ctime"]))],
         "Modify": lambda f: [("arg", "a", ("int", f.ints["mtime"]))],
@@ -224,7 +225,7 @@ class Sem:
                 elif fld.variant == "XAttr":
                     out.append(("arg", "a", ("xattr-or-empty", str_key(fld.fields[0]))))
                 elif fld.variant == "Sparseness":
-                    self.undefined = b_or(self.undefined, b_and(g, self.f.ints["size"] == 0))
+                    self.undefined = b_or(self.undefined, b_and(g, self.f.ints["size"] == num(0)))
                     out.append(("arg", "f", ("ratio", 512 * self.f.ints["blocks"], self.f.ints["size"])))
                 elif fld.variant in ("Type", "Parents"):
                     out.append(("arg", "a", ("derived", fld.variant)))
